@@ -1,20 +1,782 @@
+//! C23: interval arithmetic and constraint propagation are sound.
+//!
+//! Runs the REAL implementation (datafusion_expr_common::interval_arithmetic, physical-expr cp_solver)
+//! on generated signed-integer (Int8/Int32/Int64) and Boolean intervals and prints one JSON object per
+//! line: the inputs, the observed result and `"ok"` = the direct soundness oracle evaluated on the
+//! implementation's own result with exact i128 arithmetic over sampled member values (all members when
+//! the interval is small; endpoints, neighbours, overflow-directed values and random ones otherwise).
+//!   k = "arith"  apply_operator(Plus|Minus|Multiply|Divide)            (model-compared + oracle)
+//!   k = "cmp"    apply_operator(Eq|NotEq|Gt|GtEq|Lt|LtEq)              (model-compared + oracle)
+//!   k = "bool"   and / or / not on boolean intervals                   (model-compared + oracle)
+//!   k = "set"    intersect / union / contains / contains_value / cardinality
+//!   k = "satgt"  satisfy_greater
+//!   k = "parith" cp_solver::propagate_arithmetic
+//!   k = "pcmp"   cp_solver::propagate_comparison
+//!   k = "cp"     ExprIntervalGraph::{evaluate_bounds, update_ranges} on random expression trees (oracle only)
+//!   k = "float"  Float64 add/sub/mul/div containment (oracle only; floats are never compared with the model)
+use std::panic::{catch_unwind, AssertUnwindSafe};
+use std::sync::Arc;
+
+use arrow::datatypes::{DataType, Field, Schema};
+use datafusion_common::ScalarValue;
 use datafusion_expr_common::interval_arithmetic::{apply_operator, satisfy_greater, Interval};
 use datafusion_expr_common::operator::Operator;
-use datafusion_physical_expr::intervals::cp_solver::propagate_arithmetic;
+use datafusion_physical_expr::expressions::{BinaryExpr, Column, Literal};
+use datafusion_physical_expr::intervals::cp_solver::{
+    propagate_arithmetic, propagate_comparison, ExprIntervalGraph, PropagationResult,
+};
+use datafusion_physical_expr::PhysicalExpr;
+use h_util::{arg, json_str, Rng};
 
-fn iv(l: Option<i64>, u: Option<i64>) -> Interval { Interval::make(l, u).unwrap() }
-fn iv8(l: Option<i8>, u: Option<i8>) -> Interval { Interval::make(l, u).unwrap() }
+type B = Option<i64>;
+type I = (B, B);
+type BI = (bool, bool);
+
+const AOPS: [Operator; 4] = [Operator::Plus, Operator::Minus, Operator::Multiply, Operator::Divide];
+const ANAMES: [&str; 4] = ["add", "sub", "mul", "div"];
+const COPS: [Operator; 6] = [Operator::Eq, Operator::Gt, Operator::GtEq, Operator::Lt, Operator::LtEq, Operator::NotEq];
+const CNAMES: [&str; 6] = ["eq", "gt", "gteq", "lt", "lteq", "noteq"];
+const BFALSE: BI = (false, false);
+const BTRUE: BI = (true, true);
+const BUNC: BI = (false, true);
+
+fn tmin(bits: u32) -> i64 {
+    if bits == 64 { i64::MIN } else { -(1i64 << (bits - 1)) }
+}
+fn tmax(bits: u32) -> i64 {
+    if bits == 64 { i64::MAX } else { (1i64 << (bits - 1)) - 1 }
+}
+
+fn sv(bits: u32, v: B) -> ScalarValue {
+    match bits {
+        8 => ScalarValue::Int8(v.map(|x| x as i8)),
+        16 => ScalarValue::Int16(v.map(|x| x as i16)),
+        32 => ScalarValue::Int32(v.map(|x| x as i32)),
+        _ => ScalarValue::Int64(v),
+    }
+}
+fn mk(bits: u32, i: I) -> Interval {
+    Interval::try_new(sv(bits, i.0), sv(bits, i.1)).expect("generated interval is valid")
+}
+fn sv_get(s: &ScalarValue) -> B {
+    match s {
+        ScalarValue::Int8(o) => o.map(|x| x as i64),
+        ScalarValue::Int16(o) => o.map(|x| x as i64),
+        ScalarValue::Int32(o) => o.map(|x| x as i64),
+        ScalarValue::Int64(o) => *o,
+        other => panic!("unexpected endpoint {other:?}"),
+    }
+}
+fn get(i: &Interval) -> I {
+    (sv_get(i.lower()), sv_get(i.upper()))
+}
+fn bmk(b: BI) -> Interval {
+    Interval::try_new(ScalarValue::Boolean(Some(b.0)), ScalarValue::Boolean(Some(b.1))).expect("boolean interval")
+}
+fn bget(i: &Interval) -> BI {
+    match (i.lower(), i.upper()) {
+        (ScalarValue::Boolean(Some(l)), ScalarValue::Boolean(Some(u))) => (*l, *u),
+        _ => panic!("unexpected boolean interval {i:?}"),
+    }
+}
+
+fn jb(b: B) -> String {
+    match b { Some(v) => v.to_string(), None => "null".into() }
+}
+fn ji(i: I) -> String {
+    format!("[{},{}]", jb(i.0), jb(i.1))
+}
+fn jbi(b: BI) -> String {
+    format!("[{},{}]", b.0, b.1)
+}
+fn joi(o: &Option<I>) -> String {
+    match o { Some(i) => ji(*i), None => "null".into() }
+}
+fn joii(o: &Option<(I, I)>) -> String {
+    match o { Some((a, b)) => format!("[{},{}]", ji(*a), ji(*b)), None => "null".into() }
+}
+
+/// run a call of the real implementation; errors and panics are data
+fn call<T>(f: impl FnOnce() -> datafusion_common::Result<T>) -> Result<T, String> {
+    match catch_unwind(AssertUnwindSafe(f)) {
+        Ok(Ok(v)) => Ok(v),
+        Ok(Err(e)) => Err(format!("err:{}", e.to_string().lines().next().unwrap_or(""))),
+        Err(p) => {
+            let m = if let Some(s) = p.downcast_ref::<&str>() { s.to_string() }
+                    else if let Some(s) = p.downcast_ref::<String>() { s.clone() } else { "?".into() };
+            Err(format!("panic:{}", m.lines().next().unwrap_or("")))
+        }
+    }
+}
+
+/// the oracle's verdict: a result must pass the containment check, an Err answer cannot be unsound, a panic fails
+fn ok_of<T>(res: &Result<T, String>, oracle: bool) -> bool {
+    match res { Ok(_) => oracle, Err(e) => !e.starts_with("panic:") }
+}
+
+fn rand_in(r: &mut Rng, lo: i64, hi: i64) -> i64 {
+    let span = (hi as i128 - lo as i128 + 1) as u128;
+    (lo as i128 + ((r.next() as u128) % span) as i128) as i64
+}
+
+fn gen_bound(r: &mut Rng, bits: u32) -> B {
+    let (mn, mx) = (tmin(bits), tmax(bits));
+    let clip = |v: i64| v.max(mn).min(mx);
+    match r.below(16) {
+        0 | 1 => None,
+        2..=7 => Some(r.range(-6, 6)),
+        8 | 9 => Some(*r.pick(&[mn, mn + 1, mn + 2, mx, mx - 1, mx - 2])),
+        10 | 11 => {
+            let h = 1i64 << (bits / 2);
+            Some(clip(*r.pick(&[mn / 2, mn / 2 + 1, mn / 2 - 1, mx / 2, mx / 2 + 1, mx / 2 - 1, h, -h, h + 1, h - 1,
+                                -h - 1, -h + 1, mx / 3, mn / 3])))
+        }
+        12 | 13 => Some(clip(r.range(-130, 130))),
+        _ => Some(rand_in(r, mn, mx)),
+    }
+}
+
+fn gen_interval(r: &mut Rng, bits: u32) -> I {
+    let mut l = gen_bound(r, bits);
+    let mut u = gen_bound(r, bits);
+    if r.chance(1, 8) && l.is_some() {
+        u = l;
+    }
+    if let (Some(a), Some(b)) = (l, u) {
+        if a > b {
+            l = Some(b);
+            u = Some(a);
+        }
+    }
+    (l, u)
+}
+
+/// a small interval around zero-ish values (for propagation / expression cases)
+fn gen_small(r: &mut Rng, bits: u32) -> I {
+    let (mn, mx) = (tmin(bits), tmax(bits));
+    match r.below(12) {
+        0 => (None, Some(r.range(-8, 8))),
+        1 => (Some(r.range(-8, 8)), None),
+        2 => (None, None),
+        3 => { let l = mx - r.range(0, 6); (Some(l), Some(rand_in(r, l, mx))) }
+        4 => { let u = mn + r.range(0, 6); (Some(rand_in(r, mn, u)), Some(u)) }
+        _ => { let l = r.range(-12, 12); (Some(l), Some(l + r.range(0, 8))) }
+    }
+}
+
+fn in_iv(i: I, v: i128) -> bool {
+    i.0.map_or(true, |l| l as i128 <= v) && i.1.map_or(true, |u| v <= u as i128)
+}
+
+/// member values of an interval: all of them when there are at most `all` members, otherwise endpoints,
+/// their neighbours, values around zero, halves of the type range, the given directed extras and random ones
+fn members(r: &mut Rng, i: I, bits: u32, extra: &[i128], all: i128, nrand: usize) -> Vec<i64> {
+    let lo = i.0.unwrap_or(tmin(bits));
+    let hi = i.1.unwrap_or(tmax(bits));
+    if lo > hi {
+        return vec![];
+    }
+    let cnt = hi as i128 - lo as i128 + 1;
+    if cnt <= all {
+        return (lo..=hi).collect();
+    }
+    let (mn, mx) = (tmin(bits) as i128, tmax(bits) as i128);
+    let mut cand: Vec<i128> = vec![lo as i128, lo as i128 + 1, lo as i128 + 2, hi as i128, hi as i128 - 1, hi as i128 - 2,
+                                   -2, -1, 0, 1, 2, (lo as i128 + hi as i128) / 2, mn / 2, mn / 2 + 1, mn / 2 - 1,
+                                   mx / 2, mx / 2 + 1, mx / 2 - 1];
+    cand.extend_from_slice(extra);
+    for _ in 0..nrand {
+        cand.push(rand_in(r, lo, hi) as i128);
+    }
+    let mut v: Vec<i64> = cand.into_iter().filter(|x| *x >= lo as i128 && *x <= hi as i128).map(|x| x as i64).collect();
+    v.sort();
+    v.dedup();
+    v
+}
+
+/// values that bring a product / quotient with a member of `other` to the edge of the type range
+fn directed(other: &[i64], bits: u32) -> Vec<i128> {
+    let (mn, mx) = (tmin(bits) as i128, tmax(bits) as i128);
+    let mut v = vec![];
+    for &y in other.iter().take(40) {
+        if y != 0 {
+            for t in [mn / y as i128, mx / y as i128] {
+                v.push(t);
+                v.push(t + 1);
+                v.push(t - 1);
+            }
+        }
+    }
+    v
+}
+
+fn op_eval(op: usize, x: i64, y: i64) -> Option<i128> {
+    let (x, y) = (x as i128, y as i128);
+    match op {
+        0 => Some(x + y),
+        1 => Some(x - y),
+        2 => Some(x * y),
+        _ => if y == 0 { None } else { Some(x / y) },
+    }
+}
+fn representable(v: i128, bits: u32) -> bool {
+    v >= tmin(bits) as i128 && v <= tmax(bits) as i128
+}
+fn cmp_eval(op: usize, x: i64, y: i64) -> bool {
+    match op { 0 => x == y, 1 => x > y, 2 => x >= y, 3 => x < y, 4 => x <= y, _ => x != y }
+}
+fn in_b(b: BI, t: bool) -> bool {
+    (!b.0 || t) && (b.1 || !t)
+}
+fn pick_bits(r: &mut Rng) -> u32 {
+    match r.below(10) { 0..=3 => 8, 4 | 5 => 32, _ => 64 }
+}
+
+// ------------------------------------------------------------------ arith
+fn case_arith(r: &mut Rng) {
+    let bits = pick_bits(r);
+    let op = r.below(4) as usize;
+    let mut a = gen_interval(r, bits);
+    let mut b = gen_interval(r, bits);
+    if r.chance(1, 6) {
+        // both operands straddle zero with large magnitudes (endpoint products overflow)
+        let (mn, mx) = (tmin(bits), tmax(bits));
+        a = (Some(*r.pick(&[mn, mn + 1, mn / 2, mn / 3, -3, -1])), Some(*r.pick(&[1, 2, 3, mx / 2, mx])));
+        b = (Some(*r.pick(&[mn, mn / 2, -2, -1, -1, -5])), Some(*r.pick(&[1, 2, 2, 7, mx / 3, mx])));
+        if r.chance(1, 2) { std::mem::swap(&mut a, &mut b); }
+    }
+    run_arith(r, bits, op, a, b);
+}
+
+fn run_arith(r: &mut Rng, bits: u32, op: usize, a: I, b: I) {
+    let (ia, ib) = (mk(bits, a), mk(bits, b));
+    let res = call(|| apply_operator(&AOPS[op], &ia, &ib).map(|i| get(&i)));
+    let ys0 = members(r, b, bits, &[], 24, 4);
+    let xs = members(r, a, bits, &directed(&ys0, bits), 24, 6);
+    let ys = members(r, b, bits, &directed(&xs, bits), 24, 6);
+    let mut cex: Option<(i64, i64)> = None;
+    let mut checked = 0u64;
+    if let Ok(ri) = &res {
+        'o: for &x in &xs {
+            for &y in &ys {
+                if let Some(v) = op_eval(op, x, y) {
+                    if representable(v, bits) {
+                        checked += 1;
+                        if !in_iv(*ri, v) { cex = Some((x, y)); break 'o; }
+                    }
+                }
+            }
+        }
+    }
+    let (rs, es) = match &res { Ok(i) => (ji(*i), "null".to_string()), Err(e) => ("null".to_string(), json_str(e)) };
+    println!("{{\"k\":\"arith\",\"bits\":{bits},\"op\":\"{}\",\"a\":{},\"b\":{},\"res\":{rs},\"error\":{es},\"checked\":{checked},\"ok\":{},\"cex\":{}}}",
+             ANAMES[op], ji(a), ji(b), ok_of(&res, cex.is_none()),
+             cex.map_or("null".to_string(), |(x, y)| format!("[{x},{y}]")));
+}
+
+// ------------------------------------------------------------------ cmp
+fn case_cmp(r: &mut Rng) {
+    let bits = pick_bits(r);
+    let op = r.below(6) as usize;
+    let a = gen_interval(r, bits);
+    let b = if r.chance(1, 5) { a } else { gen_interval(r, bits) };
+    let (ia, ib) = (mk(bits, a), mk(bits, b));
+    let res = call(|| apply_operator(&COPS[op], &ia, &ib).map(|i| bget(&i)));
+    let xs = members(r, a, bits, &[], 24, 4);
+    let mut ext: Vec<i128> = vec![];
+    for &x in &xs { ext.push(x as i128); ext.push(x as i128 + 1); ext.push(x as i128 - 1); }
+    let ys = members(r, b, bits, &ext, 24, 4);
+    let mut cex = None;
+    if let Ok(rb) = &res {
+        'o: for &x in &xs { for &y in &ys { if !in_b(*rb, cmp_eval(op, x, y)) { cex = Some((x, y)); break 'o; } } }
+    }
+    let (rs, es) = match &res { Ok(i) => (jbi(*i), "null".to_string()), Err(e) => ("null".to_string(), json_str(e)) };
+    println!("{{\"k\":\"cmp\",\"bits\":{bits},\"op\":\"{}\",\"a\":{},\"b\":{},\"res\":{rs},\"error\":{es},\"ok\":{},\"cex\":{}}}",
+             CNAMES[op], ji(a), ji(b), ok_of(&res, cex.is_none()), cex.map_or("null".to_string(), |(x, y)| format!("[{x},{y}]")));
+}
+
+// ------------------------------------------------------------------ bool
+fn case_bool(r: &mut Rng) {
+    let op = r.below(3) as usize;
+    let a = *r.pick(&[BFALSE, BTRUE, BUNC]);
+    let b = *r.pick(&[BFALSE, BTRUE, BUNC]);
+    let (ia, ib) = (bmk(a), bmk(b));
+    let res = call(|| match op {
+        0 => apply_operator(&Operator::And, &ia, &ib),
+        1 => apply_operator(&Operator::Or, &ia, &ib),
+        _ => ia.not(),
+    }.map(|i| bget(&i)));
+    let mut ok = ok_of(&res, true);
+    if let Ok(rb) = &res {
+        for p in [false, true] { for q in [false, true] {
+            if in_b(a, p) && in_b(b, q) {
+                let t = match op { 0 => p && q, 1 => p || q, _ => !p };
+                if !in_b(*rb, t) { ok = false; }
+            }
+        } }
+    }
+    let (rs, es) = match &res { Ok(i) => (jbi(*i), "null".to_string()), Err(e) => ("null".to_string(), json_str(e)) };
+    println!("{{\"k\":\"bool\",\"op\":\"{}\",\"a\":{},\"b\":{},\"res\":{rs},\"error\":{es},\"ok\":{ok}}}",
+             ["and", "or", "not"][op], jbi(a), jbi(b));
+}
+
+// ------------------------------------------------------------------ set operations
+fn case_set(r: &mut Rng) {
+    let bits = pick_bits(r);
+    let op = r.below(5) as usize;
+    let a = gen_interval(r, bits);
+    let b = match r.below(6) {
+        0 => a,
+        1 => (a.0.map(|x| x.saturating_add(r.range(0, 3)).min(tmax(bits))), a.1),
+        _ => gen_interval(r, bits),
+    };
+    let b = if let (Some(l), Some(u)) = b { if l > u { (Some(u), Some(l)) } else { b } } else { b };
+    let (ia, ib) = (mk(bits, a), mk(bits, b));
+    let xa = members(r, a, bits, &[], 24, 4);
+    let mut ext: Vec<i128> = vec![];
+    for &x in &xa { ext.push(x as i128); }
+    for e in [a.0, a.1].into_iter().flatten() { ext.push(e as i128 + 1); ext.push(e as i128 - 1); }
+    let xb = members(r, b, bits, &ext, 24, 4);
+    let mut all: Vec<i64> = xa.clone();
+    all.extend_from_slice(&xb);
+    for e in [a.0, a.1, b.0, b.1].into_iter().flatten() {
+        if e > tmin(bits) { all.push(e - 1); }
+        if e < tmax(bits) { all.push(e + 1); }
+    }
+    match op {
+        0 => {
+            let res = call(|| ia.intersect(&ib).map(|o| o.map(|i| get(&i))));
+            let mut ok = ok_of(&res, true);
+            if let Ok(ri) = &res {
+                for &x in &all {
+                    let both = in_iv(a, x as i128) && in_iv(b, x as i128);
+                    let inres = ri.map_or(false, |i| in_iv(i, x as i128));
+                    if both != inres { ok = false; }
+                }
+            }
+            let (rs, es) = match &res { Ok(i) => (joi(i), "null".to_string()), Err(e) => ("null".to_string(), json_str(e)) };
+            println!("{{\"k\":\"set\",\"op\":\"intersect\",\"a\":{},\"b\":{},\"res\":{rs},\"error\":{es},\"ok\":{ok}}}", ji(a), ji(b));
+        }
+        1 => {
+            let res = call(|| ia.union(&ib).map(|i| get(&i)));
+            let mut ok = ok_of(&res, true);
+            if let Ok(ri) = &res {
+                for &x in &all {
+                    if (in_iv(a, x as i128) || in_iv(b, x as i128)) && !in_iv(*ri, x as i128) { ok = false; }
+                }
+            }
+            let (rs, es) = match &res { Ok(i) => (ji(*i), "null".to_string()), Err(e) => ("null".to_string(), json_str(e)) };
+            println!("{{\"k\":\"set\",\"op\":\"union\",\"a\":{},\"b\":{},\"res\":{rs},\"error\":{es},\"ok\":{ok}}}", ji(a), ji(b));
+        }
+        2 => {
+            let res = call(|| ia.contains(&ib).map(|i| bget(&i)));
+            let mut ok = ok_of(&res, true);
+            if let Ok(rb) = &res {
+                for &x in &all {
+                    let (ina, inb) = (in_iv(a, x as i128), in_iv(b, x as i128));
+                    if *rb == BTRUE && inb && !ina { ok = false; }
+                    if *rb == BFALSE && inb && ina { ok = false; }
+                }
+                if *rb != BTRUE && *rb != BFALSE && *rb != BUNC { ok = false; }
+            }
+            let (rs, es) = match &res { Ok(i) => (jbi(*i), "null".to_string()), Err(e) => ("null".to_string(), json_str(e)) };
+            println!("{{\"k\":\"set\",\"op\":\"contains\",\"a\":{},\"b\":{},\"res\":{rs},\"error\":{es},\"ok\":{ok}}}", ji(a), ji(b));
+        }
+        3 => {
+            let v = if all.is_empty() || r.chance(1, 4) { rand_in(r, tmin(bits), tmax(bits)) } else { *r.pick(&all) };
+            let res = call(|| ia.contains_value(sv(bits, Some(v))));
+            let ok = match &res { Ok(t) => *t == in_iv(a, v as i128), Err(e) => !e.starts_with("panic:") };
+            let (rs, es) = match &res { Ok(t) => (t.to_string(), "null".to_string()), Err(e) => ("null".to_string(), json_str(e)) };
+            println!("{{\"k\":\"set\",\"op\":\"contains_value\",\"a\":{},\"v\":{v},\"res\":{rs},\"error\":{es},\"ok\":{ok}}}", ji(a));
+        }
+        _ => {
+            let res = call(|| Ok(ia.cardinality()));
+            let expect: Option<u64> = match a {
+                (Some(l), Some(u)) => { let c = u as i128 - l as i128 + 1; if c < (1i128 << 64) { Some(c as u64) } else { None } }
+                _ => None,
+            };
+            let ok = match &res { Ok(c) => *c == expect, Err(e) => !e.starts_with("panic:") };
+            let (rs, es) = match &res {
+                Ok(c) => (c.map_or("null".to_string(), |x| x.to_string()), "null".to_string()),
+                Err(e) => ("null".to_string(), json_str(e)),
+            };
+            println!("{{\"k\":\"set\",\"op\":\"card\",\"a\":{},\"res\":{rs},\"error\":{es},\"ok\":{ok}}}", ji(a));
+        }
+    }
+}
+
+// ------------------------------------------------------------------ satisfy_greater
+fn pair_check(res: &Option<(I, I)>, x: i64, y: i64) -> bool {
+    match res { Some((l, rr)) => in_iv(*l, x as i128) && in_iv(*rr, y as i128), None => false }
+}
+
+fn case_satgt(r: &mut Rng) {
+    let bits = pick_bits(r);
+    let l = gen_interval(r, bits);
+    let rr = match r.below(4) { 0 => l, 1 => gen_small(r, bits), _ => gen_interval(r, bits) };
+    let strict = r.chance(1, 2);
+    let (il, ir) = (mk(bits, l), mk(bits, rr));
+    let res = call(|| satisfy_greater(&il, &ir, strict).map(|o| o.map(|(a, b)| (get(&a), get(&b)))));
+    let xs = members(r, l, bits, &[], 24, 4);
+    let mut ext: Vec<i128> = vec![];
+    for &x in &xs { ext.push(x as i128); ext.push(x as i128 - 1); ext.push(x as i128 + 1); }
+    let ys = members(r, rr, bits, &ext, 24, 4);
+    let mut cex = None;
+    let mut feasible = 0u64;
+    if let Ok(ro) = &res {
+        'o: for &x in &xs { for &y in &ys {
+            if (strict && x > y) || (!strict && x >= y) {
+                feasible += 1;
+                if !pair_check(ro, x, y) { cex = Some((x, y)); break 'o; }
+            }
+        } }
+    }
+    let (rs, es) = match &res { Ok(o) => (joii(o), "null".to_string()), Err(e) => ("null".to_string(), json_str(e)) };
+    println!("{{\"k\":\"satgt\",\"bits\":{bits},\"l\":{},\"r\":{},\"strict\":{strict},\"res\":{rs},\"error\":{es},\"feasible\":{feasible},\"ok\":{},\"cex\":{}}}",
+             ji(l), ji(rr), ok_of(&res, cex.is_none()), cex.map_or("null".to_string(), |(x, y)| format!("[{x},{y}]")));
+}
+
+// ------------------------------------------------------------------ propagate_arithmetic
+fn case_parith(r: &mut Rng) {
+    let bits = pick_bits(r);
+    let op = if r.chance(2, 3) { r.below(2) as usize } else { 2 + r.below(2) as usize };
+    let l = if r.chance(3, 4) { gen_small(r, bits) } else { gen_interval(r, bits) };
+    let rr = if r.chance(3, 4) { gen_small(r, bits) } else { gen_interval(r, bits) };
+    let xs0 = members(r, l, bits, &[], 24, 4);
+    let ys0 = members(r, rr, bits, &[], 24, 4);
+    // the parent: an interval around a feasible value, or an arbitrary one
+    let mut parent = gen_interval(r, bits);
+    if !xs0.is_empty() && !ys0.is_empty() && r.chance(3, 4) {
+        let (x, y) = (*r.pick(&xs0), *r.pick(&ys0));
+        if let Some(p) = op_eval(op, x, y) {
+            if representable(p, bits) {
+                let p = p as i64;
+                let lo = p.saturating_sub(r.range(0, 4)).max(tmin(bits));
+                let hi = p.saturating_add(r.range(0, 4)).min(tmax(bits));
+                parent = match r.below(6) { 0 => (None, Some(hi)), 1 => (Some(lo), None), _ => (Some(lo), Some(hi)) };
+            }
+        }
+    }
+    run_parith(r, bits, op, parent, l, rr);
+}
+
+fn run_parith(r: &mut Rng, bits: u32, op: usize, parent: I, l: I, rr: I) {
+    let ys0 = members(r, rr, bits, &[], 24, 4);
+    let (ip, il, ir) = (mk(bits, parent), mk(bits, l), mk(bits, rr));
+    let res = call(|| propagate_arithmetic(&AOPS[op], &ip, &il, &ir).map(|o| o.map(|(a, b)| (get(&a), get(&b)))));
+    let xs = members(r, l, bits, &directed(&ys0, bits), 24, 6);
+    let ys = members(r, rr, bits, &directed(&xs, bits), 24, 6);
+    let mut cex = None;
+    let mut feasible = 0u64;
+    if let Ok(ro) = &res {
+        'o: for &x in &xs { for &y in &ys {
+            if let Some(p) = op_eval(op, x, y) {
+                if representable(p, bits) && in_iv(parent, p) {
+                    feasible += 1;
+                    if !pair_check(ro, x, y) { cex = Some((x, y)); break 'o; }
+                }
+            }
+        } }
+    }
+    let (rs, es) = match &res { Ok(o) => (joii(o), "null".to_string()), Err(e) => ("null".to_string(), json_str(e)) };
+    println!("{{\"k\":\"parith\",\"bits\":{bits},\"op\":\"{}\",\"parent\":{},\"l\":{},\"r\":{},\"res\":{rs},\"error\":{es},\"feasible\":{feasible},\"ok\":{},\"cex\":{}}}",
+             ANAMES[op], ji(parent), ji(l), ji(rr), ok_of(&res, cex.is_none()),
+             cex.map_or("null".to_string(), |(x, y)| format!("[{x},{y}]")));
+}
+
+// ------------------------------------------------------------------ propagate_comparison
+fn case_pcmp(r: &mut Rng) {
+    let bits = pick_bits(r);
+    let op = r.below(5) as usize; // eq gt gteq lt lteq
+    let parent = match r.below(10) { 0..=5 => BTRUE, 6..=8 => BFALSE, _ => BUNC };
+    let l = if r.chance(1, 2) { gen_small(r, bits) } else { gen_interval(r, bits) };
+    let rr = match r.below(4) { 0 => l, 1 => gen_small(r, bits), _ => gen_interval(r, bits) };
+    run_pcmp(r, bits, op, parent, l, rr);
+}
+
+fn run_pcmp(r: &mut Rng, bits: u32, op: usize, parent: BI, l: I, rr: I) {
+    let (ip, il, ir) = (bmk(parent), mk(bits, l), mk(bits, rr));
+    let res = call(|| propagate_comparison(&COPS[op], &ip, &il, &ir).map(|o| o.map(|(a, b)| (get(&a), get(&b)))));
+    let xs = members(r, l, bits, &[], 24, 4);
+    let mut ext: Vec<i128> = vec![];
+    for &x in &xs { ext.push(x as i128); ext.push(x as i128 - 1); ext.push(x as i128 + 1); }
+    let ys = members(r, rr, bits, &ext, 24, 4);
+    let mut cex = None;
+    let mut feasible = 0u64;
+    if let Ok(ro) = &res {
+        'o: for &x in &xs { for &y in &ys {
+            if in_b(parent, cmp_eval(op, x, y)) {
+                feasible += 1;
+                if !pair_check(ro, x, y) { cex = Some((x, y)); break 'o; }
+            }
+        } }
+    }
+    let (rs, es) = match &res { Ok(o) => (joii(o), "null".to_string()), Err(e) => ("null".to_string(), json_str(e)) };
+    println!("{{\"k\":\"pcmp\",\"bits\":{bits},\"op\":\"{}\",\"parent\":{},\"l\":{},\"r\":{},\"res\":{rs},\"error\":{es},\"feasible\":{feasible},\"ok\":{},\"cex\":{}}}",
+             CNAMES[op], jbi(parent), ji(l), ji(rr), ok_of(&res, cex.is_none()),
+             cex.map_or("null".to_string(), |(x, y)| format!("[{x},{y}]")));
+}
+
+// ------------------------------------------------------------------ ExprIntervalGraph
+#[derive(Clone, Debug)]
+enum E { Col(usize), Lit(i64), Bin(Box<E>, usize, Box<E>) }
+#[derive(Clone, Debug)]
+enum P { Cmp(E, usize, E), And(Box<P>, Box<P>) }
+const NAMES: [&str; 3] = ["a", "b", "c"];
+
+fn gen_e(r: &mut Rng, depth: u32, muldiv: bool) -> E {
+    if depth == 0 || r.chance(1, 3) {
+        if r.chance(3, 4) { E::Col(r.below(3) as usize) }
+        else if r.chance(1, 8) { E::Lit(*r.pick(&[i64::MAX, i64::MIN, i64::MAX - 1, 1 << 40])) }
+        else { E::Lit(r.range(-5, 5)) }
+    } else {
+        let op = if muldiv && r.chance(1, 2) { 2 + r.below(2) as usize } else { r.below(2) as usize };
+        E::Bin(Box::new(gen_e(r, depth - 1, muldiv)), op, Box::new(gen_e(r, depth - 1, muldiv)))
+    }
+}
+fn gen_p(r: &mut Rng, depth: u32, muldiv: bool) -> P {
+    if depth > 0 && r.chance(1, 4) {
+        P::And(Box::new(gen_p(r, depth - 1, muldiv)), Box::new(gen_p(r, depth - 1, muldiv)))
+    } else {
+        let d = 1 + r.below(2) as u32;
+        P::Cmp(gen_e(r, d, muldiv), r.below(5) as usize, gen_e(r, d.saturating_sub(r.below(2) as u32), muldiv))
+    }
+}
+fn e_has_muldiv(e: &E) -> bool {
+    match e { E::Bin(a, op, b) => *op >= 2 || e_has_muldiv(a) || e_has_muldiv(b), _ => false }
+}
+fn p_has_muldiv(p: &P) -> bool {
+    match p { P::Cmp(a, _, b) => e_has_muldiv(a) || e_has_muldiv(b), P::And(a, b) => p_has_muldiv(a) || p_has_muldiv(b) }
+}
+fn e_cols(e: &E, out: &mut Vec<usize>) {
+    match e { E::Col(c) => if !out.contains(c) { out.push(*c) }, E::Lit(_) => {}, E::Bin(a, _, b) => { e_cols(a, out); e_cols(b, out) } }
+}
+fn p_cols(p: &P, out: &mut Vec<usize>) {
+    match p { P::Cmp(a, _, b) => { e_cols(a, out); e_cols(b, out) }, P::And(a, b) => { p_cols(a, out); p_cols(b, out) } }
+}
+fn e_str(e: &E) -> String {
+    match e {
+        E::Col(c) => NAMES[*c].to_string(),
+        E::Lit(v) => v.to_string(),
+        E::Bin(a, op, b) => format!("({} {} {})", e_str(a), ["+", "-", "*", "/"][*op], e_str(b)),
+    }
+}
+fn p_str(p: &P) -> String {
+    match p {
+        P::Cmp(a, op, b) => format!("{} {} {}", e_str(a), ["=", ">", ">=", "<", "<="][*op], e_str(b)),
+        P::And(a, b) => format!("({}) AND ({})", p_str(a), p_str(b)),
+    }
+}
+fn e_phys(e: &E) -> Arc<dyn PhysicalExpr> {
+    match e {
+        E::Col(c) => Arc::new(Column::new(NAMES[*c], *c)),
+        E::Lit(v) => Arc::new(Literal::new(ScalarValue::Int64(Some(*v)))),
+        E::Bin(a, op, b) => Arc::new(BinaryExpr::new(e_phys(a), AOPS[*op], e_phys(b))),
+    }
+}
+fn p_phys(p: &P) -> Arc<dyn PhysicalExpr> {
+    match p {
+        P::Cmp(a, op, b) => Arc::new(BinaryExpr::new(e_phys(a), COPS[*op], e_phys(b))),
+        P::And(a, b) => Arc::new(BinaryExpr::new(p_phys(a), Operator::And, p_phys(b))),
+    }
+}
+/// value of the expression on a row; None when the row makes the expression error (overflow, division by zero)
+fn e_eval(e: &E, vals: &[i64; 3]) -> Option<i64> {
+    match e {
+        E::Col(c) => Some(vals[*c]),
+        E::Lit(v) => Some(*v),
+        E::Bin(a, op, b) => {
+            let (x, y) = (e_eval(a, vals)?, e_eval(b, vals)?);
+            match op { 0 => x.checked_add(y), 1 => x.checked_sub(y), 2 => x.checked_mul(y), _ => x.checked_div(y) }
+        }
+    }
+}
+fn p_eval(p: &P, vals: &[i64; 3]) -> Option<bool> {
+    match p {
+        P::Cmp(a, op, b) => Some(cmp_eval(*op, e_eval(a, vals)?, e_eval(b, vals)?)),
+        P::And(a, b) => { let (x, y) = (p_eval(a, vals)?, p_eval(b, vals)?); Some(x && y) }
+    }
+}
+fn first_cmp(p: &P) -> (&E, &E) {
+    match p { P::Cmp(a, _, b) => (a, b), P::And(a, _) => first_cmp(a) }
+}
+
+fn bounds_of(expr: Arc<dyn PhysicalExpr>, schema: &Schema, used: &[usize], ranges: &[I; 3]) -> datafusion_common::Result<Interval> {
+    let mut g = ExprIntervalGraph::try_new(expr, schema)?;
+    let col_exprs: Vec<Arc<dyn PhysicalExpr>> = used.iter().map(|&c| Arc::new(Column::new(NAMES[c], c)) as Arc<dyn PhysicalExpr>).collect();
+    let idx = g.gather_node_indices(&col_exprs);
+    let leaf: Vec<(usize, Interval)> = idx.iter().zip(used.iter()).map(|((_, i), &c)| (*i, mk(64, ranges[c]))).collect();
+    g.assign_intervals(&leaf);
+    Ok(g.evaluate_bounds()?.clone())
+}
+
+fn case_cp(r: &mut Rng) {
+    let muldiv = r.chance(1, 5);
+    let p = gen_p(r, 1, muldiv);
+    let given = !r.chance(1, 8);
+    let ranges: [I; 3] = [gen_small(r, 64), gen_small(r, 64), gen_small(r, 64)];
+    let mut used = vec![];
+    p_cols(&p, &mut used);
+    let schema = Schema::new(vec![
+        Field::new("a", DataType::Int64, true),
+        Field::new("b", DataType::Int64, true),
+        Field::new("c", DataType::Int64, true),
+    ]);
+    let (sa, sb) = first_cmp(&p);
+    let (mut ua, mut ub) = (vec![], vec![]);
+    e_cols(sa, &mut ua);
+    e_cols(sb, &mut ub);
+    let side_a = call(|| bounds_of(e_phys(sa), &schema, &ua, &ranges).map(|i| get(&i)));
+    let side_b = call(|| bounds_of(e_phys(sb), &schema, &ub, &ranges).map(|i| get(&i)));
+    let root = call(|| bounds_of(p_phys(&p), &schema, &used, &ranges).map(|i| bget(&i)));
+    let upd = call(|| {
+        let mut g = ExprIntervalGraph::try_new(p_phys(&p), &schema)?;
+        let col_exprs: Vec<Arc<dyn PhysicalExpr>> = used.iter().map(|&c| Arc::new(Column::new(NAMES[c], c)) as Arc<dyn PhysicalExpr>).collect();
+        let idx = g.gather_node_indices(&col_exprs);
+        let mut leaf: Vec<(usize, Interval)> = idx.iter().zip(used.iter()).map(|((_, i), &c)| (*i, mk(64, ranges[c]))).collect();
+        let pr = g.update_ranges(&mut leaf, bmk(if given { BTRUE } else { BFALSE }))?;
+        let tag = match pr { PropagationResult::CannotPropagate => "CannotPropagate", PropagationResult::Infeasible => "Infeasible", PropagationResult::Success => "Success" };
+        Ok((tag, leaf.iter().map(|(_, i)| get(i)).collect::<Vec<I>>()))
+    });
+    // sampled assignments
+    let mut ms: Vec<Vec<i64>> = vec![vec![0], vec![0], vec![0]];
+    for &c in &used { ms[c] = members(r, ranges[c], 64, &[], 9, 2); if ms[c].len() > 12 { let k = ms[c].len(); let mut t = ms[c][..6].to_vec(); t.extend_from_slice(&ms[c][k - 6..]); ms[c] = t; } }
+    let (mut samples, mut feasible) = (0u64, 0u64);
+    let mut why: Option<String> = None;
+    let mut cex: Option<[i64; 3]> = None;
+    'o: for &a in &ms[0] { for &b in &ms[1] { for &c in &ms[2] {
+        let vals = [a, b, c];
+        samples += 1;
+        if let (Ok(ia), Some(v)) = (&side_a, e_eval(sa, &vals)) {
+            if !in_iv(*ia, v as i128) { why = Some(format!("evaluate_bounds of {} = {} does not contain its value {v}", e_str(sa), ji(*ia))); cex = Some(vals); break 'o; }
+        }
+        if let (Ok(ib), Some(v)) = (&side_b, e_eval(sb, &vals)) {
+            if !in_iv(*ib, v as i128) { why = Some(format!("evaluate_bounds of {} = {} does not contain its value {v}", e_str(sb), ji(*ib))); cex = Some(vals); break 'o; }
+        }
+        if let Some(t) = p_eval(&p, &vals) {
+            if let Ok(rb) = &root {
+                if !in_b(*rb, t) { why = Some(format!("evaluate_bounds of the predicate = {} does not contain its truth value {t}", jbi(*rb))); cex = Some(vals); break 'o; }
+            }
+            if t == given {
+                feasible += 1;
+                if let Ok((tag, new)) = &upd {
+                    if *tag == "Infeasible" { why = Some("update_ranges answered Infeasible although a sampled assignment satisfies the constraint".into()); cex = Some(vals); break 'o; }
+                    if *tag == "Success" {
+                        for (k, &col) in used.iter().enumerate() {
+                            if !in_iv(new[k], vals[col] as i128) {
+                                why = Some(format!("update_ranges shrank {} to {} and removed the value of a satisfying assignment", NAMES[col], ji(new[k])));
+                                cex = Some(vals); break 'o;
+                            }
+                        }
+                    }
+                }
+            }
+        }
+    } } }
+    let errs: Vec<String> = [side_a.as_ref().err(), side_b.as_ref().err(), root.as_ref().err().map(|e| e), upd.as_ref().err()]
+        .into_iter().flatten().cloned().collect();
+    let panicked = errs.iter().any(|e| e.starts_with("panic:"));
+    if panicked && why.is_none() { why = Some(format!("panic: {}", errs.iter().find(|e| e.starts_with("panic:")).unwrap())); }
+    let (tag, new) = match &upd { Ok((t, n)) => (t.to_string(), n.clone()), Err(e) => (e.clone(), vec![]) };
+    println!("{{\"k\":\"cp\",\"expr\":{},\"given\":{given},\"muldiv\":{},\"cols\":[{}],\"ranges\":[{}],\"root\":{},\"result\":{},\"new\":[{}],\"errors\":[{}],\"samples\":{samples},\"feasible\":{feasible},\"ok\":{},\"why\":{},\"cex\":{}}}",
+             json_str(&p_str(&p)), p_has_muldiv(&p),
+             used.iter().map(|c| json_str(NAMES[*c])).collect::<Vec<_>>().join(","),
+             used.iter().map(|c| ji(ranges[*c])).collect::<Vec<_>>().join(","),
+             root.as_ref().map_or("null".to_string(), |b| jbi(*b)), json_str(&tag),
+             new.iter().map(|i| ji(*i)).collect::<Vec<_>>().join(","),
+             errs.iter().map(|e| json_str(e)).collect::<Vec<_>>().join(","),
+             why.is_none(), why.as_ref().map_or("null".to_string(), |w| json_str(w)),
+             cex.map_or("null".to_string(), |v| format!("{{\"a\":{},\"b\":{},\"c\":{}}}", v[0], v[1], v[2])));
+}
+
+// ------------------------------------------------------------------ floats (oracle only)
+fn gen_fbound(r: &mut Rng) -> Option<f64> {
+    match r.below(12) {
+        0 => None,
+        1..=4 => Some(r.range(-6, 6) as f64),
+        5 => Some(*r.pick(&[0.1, -0.1, 0.3, 1e-3, 2.5, -7.75, 1.0 / 3.0])),
+        6 => Some(*r.pick(&[1e300, -1e300, f64::MAX, f64::MIN, 1e154, -1e154, 1.5e308])),
+        7 => Some(*r.pick(&[5e-324, -5e-324, 1e-320, -1e-310, 2.2250738585072014e-308, 1e-160])),
+        _ => {
+            let m = (r.next() >> 11) as f64 / (1u64 << 53) as f64;
+            let e = r.range(-40, 40) as i32;
+            let s = if r.chance(1, 2) { 1.0 } else { -1.0 };
+            Some(s * (1.0 + m) * 2f64.powi(e))
+        }
+    }
+}
+fn fmembers(r: &mut Rng, i: (Option<f64>, Option<f64>)) -> Vec<f64> {
+    let lo = i.0.unwrap_or(f64::MIN);
+    let hi = i.1.unwrap_or(f64::MAX);
+    let mut v = vec![lo, hi, lo / 2.0 + hi / 2.0];
+    for c in [0.0, 1.0, -1.0, 1e-300, -1e-300, 3.0, -3.0, 0.1] { if lo <= c && c <= hi { v.push(c); } }
+    for _ in 0..4 {
+        let t = (r.next() >> 11) as f64 / (1u64 << 53) as f64;
+        let x = lo * (1.0 - t) + hi * t;
+        if x.is_finite() && lo <= x && x <= hi { v.push(x); }
+    }
+    v
+}
+fn jf(x: Option<f64>) -> String {
+    match x { Some(v) => format!("\"{:e}\"", v), None => "null".into() }
+}
+fn case_float(r: &mut Rng) {
+    let op = r.below(4) as usize;
+    let mut gi = |r: &mut Rng| {
+        let (mut l, mut u) = (gen_fbound(r), gen_fbound(r));
+        if let (Some(a), Some(b)) = (l, u) { if a > b { l = Some(b); u = Some(a); } }
+        (l, u)
+    };
+    let a = gi(r);
+    let b = gi(r);
+    let res = call(|| {
+        let ia = Interval::make(a.0, a.1)?;
+        let ib = Interval::make(b.0, b.1)?;
+        let o = apply_operator(&AOPS[op], &ia, &ib)?;
+        match (o.lower(), o.upper()) {
+            (ScalarValue::Float64(l), ScalarValue::Float64(u)) => Ok((*l, *u)),
+            _ => panic!("unexpected float interval {o:?}"),
+        }
+    });
+    let mut cex = None;
+    if let Ok((rl, ru)) = &res {
+        'o: for &x in &fmembers(r, a) { for &y in &fmembers(r, b) {
+            let v = match op { 0 => x + y, 1 => x - y, 2 => x * y, _ => if y == 0.0 { f64::NAN } else { x / y } };
+            if v.is_finite() && !(rl.map_or(true, |l| l <= v) && ru.map_or(true, |u| v <= u)) { cex = Some((x, y)); break 'o; }
+        } }
+    }
+    let (rs, es) = match &res { Ok((l, u)) => (format!("[{},{}]", jf(*l), jf(*u)), "null".to_string()), Err(e) => ("null".to_string(), json_str(e)) };
+    println!("{{\"k\":\"float\",\"op\":\"{}\",\"a\":[{},{}],\"b\":[{},{}],\"res\":{rs},\"error\":{es},\"ok\":{},\"cex\":{}}}",
+             ANAMES[op], jf(a.0), jf(a.1), jf(b.0), jf(b.1), ok_of(&res, cex.is_none()),
+             cex.map_or("null".to_string(), |(x, y)| format!("[\"{:e}\",\"{:e}\"]", x, y)));
+}
 
 fn main() {
-    println!("mul {:?}", iv(Some(i64::MIN), Some(1)).mul(iv(Some(-1), Some(2))));
-    println!("mul8 {:?}", iv8(Some(-128), Some(1)).mul(iv8(Some(-1), Some(2))));
-    println!("div {:?}", iv(Some(-5), Some(0)).div(iv(Some(2), Some(3))));
-    println!("div {:?}", iv(Some(10), Some(20)).div(iv(Some(-3), Some(0))));
-    println!("div {:?}", iv(Some(-5), Some(1)).div(iv(Some(2), Some(3))));
-    println!("div {:?}", iv(Some(7), Some(7)).div(iv(None, Some(-1))));
-    println!("div {:?}", iv(Some(7), Some(7)).div(iv(Some(2), None)));
-    println!("prop div {:?}", propagate_arithmetic(&Operator::Divide, &iv(Some(3), Some(3)), &iv(Some(7), Some(7)), &iv(Some(2), Some(2))));
-    println!("sg {:?}", satisfy_greater(&iv(None, None), &iv(Some(i64::MAX), Some(i64::MAX)), true));
-    println!("add {:?}", apply_operator(&Operator::Plus, &iv(Some(i64::MAX), Some(i64::MAX)), &iv(Some(1), Some(5))));
-    println!("add8 {:?}", apply_operator(&Operator::Plus, &iv8(Some(127), Some(127)), &iv8(Some(1), Some(5))));
+    let args: Vec<String> = std::env::args().collect();
+    let seed: u64 = arg(&args, "--seed", "1").parse().unwrap();
+    let n: u64 = arg(&args, "--n", "3000").parse().unwrap();
+    std::panic::set_hook(Box::new(|_| {}));
+    let mut r = Rng::new(seed);
+    // the refutation witnesses of Props/C23.v replayed on the real code (lines 1..8 of the output)
+    run_arith(&mut r, 8, 2, (Some(-128), Some(1)), (Some(-1), Some(2)));
+    run_arith(&mut r, 64, 3, (Some(-5), Some(0)), (Some(2), Some(3)));
+    run_arith(&mut r, 64, 3, (Some(10), Some(20)), (Some(-3), Some(0)));
+    run_parith(&mut r, 64, 3, (Some(3), Some(3)), (Some(7), Some(7)), (Some(2), Some(2)));
+    run_parith(&mut r, 64, 2, (Some(0), Some(10)), (Some(-5), Some(5)), (Some(0), Some(5)));
+    run_pcmp(&mut r, 64, 1, BFALSE, (Some(0), Some(10)), (Some(100), Some(200)));
+    run_pcmp(&mut r, 64, 1, BUNC, (Some(0), Some(10)), (Some(0), Some(10)));
+    run_pcmp(&mut r, 64, 0, BFALSE, (Some(0), Some(10)), (Some(0), Some(10)));
+    for _ in 0..n {
+        match r.below(100) {
+            0..=29 => case_arith(&mut r),
+            30..=39 => case_cmp(&mut r),
+            40..=42 => case_bool(&mut r),
+            43..=54 => case_set(&mut r),
+            55..=62 => case_satgt(&mut r),
+            63..=74 => case_parith(&mut r),
+            75..=82 => case_pcmp(&mut r),
+            83..=94 => case_cp(&mut r),
+            _ => case_float(&mut r),
+        }
+    }
 }
